@@ -82,6 +82,11 @@ check("C15", "exploration",
   "govaluate is the trusted expression evaluator; admins with a pending lifecycle operation are not judged (the statement does not say whether they are available); a refused legitimate vote is an observation, not a violation (only-if statement).",
   "runtime monitoring: per-step proposal read-back checked by an eligibility / tally / finality oracle", "DESIGN.md §5 C15")
 
+check("C16", "exploration",
+  "Worlds built from genesis are driven through 70 single-transaction blocks mixing governance operations (register / update / freeze / activate / logout on appchains, services, roles, nodes, with approving and rejecting votes) and interchain probes between services in every governance status, with node restarts; the gate's answer is predicted from the statuses queried right before the probe (three-valued: transitional statuses are not judged) and every observed status change is checked against the declared machines (paths of <= 2 declared edges, forbidden absorbing, caused by the block's transaction on the object or its owning chain).",
+  "Declared machines = the setFSM tables of bitxhub-core appchain/service/node/rule managers and contracts/role.go, transcribed in model/lifecycle.go; listing a begin-failed request for its destination chain is not judged (the statement does not forbid it).",
+  "runtime monitoring: three-valued gating oracle + declared-FSM trace checker over per-block status queries", "DESIGN.md §5 C16, appendix B")
+
 ALL = [f"C{i:02d}" for i in range(1, 21)]
 REASON_PENDING = "check not built yet in this round; see DESIGN.md §5 for the planned monitor (no claim is made until the check runs clean on the unchanged tree)"
 
